@@ -31,7 +31,7 @@ def build(tier):
                     for cut in range(0, nsteps + 1):
                         for role in ((0, 1) if cut >= nsteps - 1 or tier == "thorough" else (0,)):
                             qs.append(ldpc_cycle("C08", cfg, pat, (1, 9)[pi % 2], api, 1, (1 + pi) % 3, EN, cb=(0, 1, 2, 3)[(cut + pi) % 4],
-                                                 extra=dict(CUT=cut, ROLE_BOTH=role), expect=False))
+                                                 extra=dict(CUT=cut, ROLE_BOTH=role, BOTH_ENCODES=1), expect=False))
     rs = [(RS2M, 4, 2, 2), (RS2M, 8, 2, 2), (RS28, 8, 2, 2)] if tier == "quick" else [(RS2M, 4, 2, 2), (RS2M, 4, 3, 2), (RS2M, 8, 2, 2), (RS28, 8, 2, 2), (RS28, 8, 2, 1)]
     for codec, m, k, r in rs:
         n = k + r
@@ -42,15 +42,17 @@ def build(tier):
             for api in (0, 1):
                 nsteps = 3 + (len(pat) if api == 0 else 1) + 1
                 for cut in range(0, nsteps + 1):
-                    if codec == RS28 and tier == "quick" and cut not in (2, nsteps - 1, nsteps):
+                    if codec == RS28 and tier == "quick" and (cut not in (2, nsteps) or pi != 0):
                         continue
                     for role in ((0, 1) if cut >= nsteps - 1 else (0,)):
+                        if codec == RS28 and tier == "quick" and role == 0 and cut == nsteps:
+                            continue
                         qs.append(rs_cycle("C08", codec, k, r, 3, m, pat, api, 1, pi % 2, EN, cb=(0, 1, 2)[(cut + pi) % 3],
-                                           data="one", extra=dict(CUT=cut, ROLE_BOTH=role), timeout=900))
+                                           data="one", extra=dict(CUT=cut, ROLE_BOTH=role, BOTH_ENCODES=1), timeout=900))
     meta = dict(
         units=["src/lib_common/of_openfec_api.c", "src/lib_stable/*/of_*_api.c", "it_decoding/of_it_decoding.c", "ml_decoding/*.c", "binary_matrix/of_matrix_{sparse,dense}.c", "galois_field_codes_utils/of_galois_field_code.c", "reed-solomon_gf_2_8/of_reed-solomon_gf_2_8.c"],
         functions_encoded=["of_release_codec_instance and the per-codec release functions", "every allocation site reached by the API cycle"],
-        bounds="CBMC --memory-leak-check plus free()-precondition checks (double free, free of non-heap) on the API cycle create -> set_fec_parameters -> set_callback_functions -> submissions -> of_finish_decoding, cut by of_release_codec_instance after every step (CUT = 0..last); the application then frees exactly what the API says it owns (decoded source symbols, its own buffers). LDPC %s with received sets of each class (peeling-complete, ML-complete, ML-failure, partial) chosen with the reference model, RS %s with 6 received sets; decoder-only and encoder+decoder instances; callbacks none/buffer/NULL/mix" % (ld_cfgs, [(CODEC_NAME[c], m, k, r) for c, m, k, r in rs]),
+        bounds="CBMC --memory-leak-check plus free()-precondition checks (double free, free of non-heap) on the API cycle create -> set_fec_parameters -> set_callback_functions -> submissions -> of_finish_decoding, cut by of_release_codec_instance after every step (CUT = 0..last); the application then frees exactly what the API says it owns (decoded source symbols, its own buffers). LDPC %s with received sets of each class (peeling-complete, ML-complete, ML-failure, partial) chosen with the reference model, RS %s with 6 received sets; decoder-only instances and encoder+decoder instances that first build every repair symbol themselves; callbacks none/buffer/NULL/mix" % (ld_cfgs, [(CODEC_NAME[c], m, k, r) for c, m, k, r in rs]),
         outside_bounds="histories other than the cut cycle (e.g. release between two finish calls); allocation failure paths; larger codes",
         stubs=[RS_STUB, RS28_TABLES], assumptions=STD_ASSUMPTIONS + ["CBMC's leak check reports an allocated-and-unreachable-at-exit object chosen nondeterministically; with concrete control flow any single leaked object is found"], exhaustive=False)
     return qs, meta
